@@ -16,6 +16,18 @@ fn lattice(_tier: Tier, channels: &[usize]) -> Vec<Cfg> {
     let mut v = Vec::new();
     let ratios: Vec<f64> = if q { vec![0.5] } else { vec![0.5, 147.0 / 160.0, 2.0] };
     for &n in channels {
+        // every sinc interpolation type on both variants, with few sub-filters and a ratio above
+        // the oversampling factor (consecutive frames then hit the same sub-filter point)
+        for kind in [Kind::SI, Kind::SO] {
+            for interp in Interp::ALL {
+                v.push(Cfg::sinc(kind, 3.0, 2.0, 6, 8, 2, interp, Kernel::Dispatch).with_channels(n));
+            }
+        }
+        for kind in [Kind::FI, Kind::FO] {
+            for d in [Degree::Quintic, Degree::Linear, Degree::Nearest] {
+                v.push(Cfg::fast(kind, 3.0, 2.0, 6, d).with_channels(n));
+            }
+        }
         for &r in &ratios {
             v.push(Cfg::sinc(Kind::SI, r, 2.0, 8, 8, 2, Interp::Cubic, Kernel::Dispatch).with_channels(n));
             v.push(Cfg::sinc(Kind::SO, r, 2.0, 8, 8, 2, Interp::Linear, Kernel::Dispatch).with_channels(n));
